@@ -612,3 +612,8 @@ _MAP_OLD = "            let (array_iter, position) = source.iter_position();\n\n
 benign("c04-map-consumer-slots-skip-the-cursor", ["C03", "C04", "C05"],   # (C08.M keeps its own rule: no skipping adaptor in map's pipeline at all)
         [("src/lib.rs", _MAP_OLD, "            let (array_iter, position) = source.iter_position();\n            let array_iter = array_iter.skip(*position);\n\n            FromIterator::from_iter(array_iter.map(|src| {")])
 mutant("c04-map-consumer-slots-skip-one", ["C04"], [("src/lib.rs", _MAP_OLD, "            let (array_iter, position) = source.iter_position();\n            let array_iter = array_iter.skip((N::USIZE > 40) as usize);\n\n            FromIterator::from_iter(array_iter.map(|src| {")], "C04.O")
+
+# ---- optimiser hints in safe const fns (round 20 / S230): true ones are proved, false ones reported (C18.H)
+_HINT_OLD = "        let num_remainder = slice.len() - num_in_chunks;\n\n        unsafe {\n            (\n                slice::from_raw_parts(slice.as_ptr() as *const GenericArray<T, N>, num_chunks),"
+benign("c18-true-hint-in-chunks-from-slice", ["C18", "C10", "C01"], [("src/lib.rs", _HINT_OLD, "        let num_remainder = slice.len() - num_in_chunks;\n        unsafe { core::hint::assert_unchecked(num_in_chunks <= slice.len()) };\n\n        unsafe {\n            (\n                slice::from_raw_parts(slice.as_ptr() as *const GenericArray<T, N>, num_chunks),")])
+mutant("c18-false-hint-in-chunks-from-slice", ["C18"], [("src/lib.rs", _HINT_OLD, "        let num_remainder = slice.len() - num_in_chunks;\n        unsafe { core::hint::assert_unchecked(num_remainder != 0) };\n\n        unsafe {\n            (\n                slice::from_raw_parts(slice.as_ptr() as *const GenericArray<T, N>, num_chunks),")], "C18.H")
